@@ -620,7 +620,9 @@ func flushLifecycleRules(c *eng.Ctx) {
 				if !ok {
 					// dropping a store that was just found EMPTY loses nothing
 					ff := p.MustFacts(f)
-					if len(ff.Find(ff.At(x.Instr), "true", func(d string, _ ssa.Value) bool { return strings.Contains(d, ".immutable") && strings.Contains(d, "IsEmpty(") }, nil)) > 0 {
+					if len(ff.Find(ff.At(x.Instr), "true", func(d string, _ ssa.Value) bool {
+						return strings.Contains(d, ".immutable") && strings.Contains(d, "IsEmpty(")
+					}, nil)) > 0 {
 						ok = true
 					}
 				}
